@@ -26,7 +26,7 @@ COMPONENTS = {"real": ["amaranth.hdl._dsl.Module (If/Elif/Else, Switch/Case/Defa
               "stub": ["PermSet scheduler seam", "clock/reset driver", "reference interpreter (dsim/refint.py)"]}
 EXPECTED_PROBES = ("sched", "coincide", "inactive", "srst", "arst", "if", "switch", "fsm", "part", "array", "cat", "as_signed",
                    "matches", "dontcare_pattern", "submodules", "zero_width", "obs_changes")
-OPTS = {"max_domains": 2, "max_modules": 3, "wrappers": False, "prints": False, "fsm": True, "shadows": True, "clock_reads": True}
+OPTS = {"max_domains": 2, "max_modules": 3, "wrappers": False, "prints": False, "fsm": True, "shadows": True, "clock_reads": True, "partial_part": True}
 
 
 def gen_case(seed, tier):
@@ -66,6 +66,7 @@ def signature(case, violation):
         sig["exc"] = violation["detail"].get("type")
         sig["where"] = violation["detail"].get("where")
     sig["async"] = any(d["async_reset"] for d in case["prog"]["domains"])
+    sig["part_select_on_partly_owned_signal"] = progdrv.partial_part_targets(case["prog"]) > 0
     return sig
 
 
